@@ -43,7 +43,17 @@ const (
 )
 
 // c05WaitLimit bounds every real-time wait of the harness; hitting it is harness trouble.
-const c05WaitLimit = 90 * time.Second
+const c05WaitLimit = 60 * time.Second
+
+// c05SpinLimit: a direction that issues this many further calls of one kind on a connection after a
+// call of that kind on that connection has already returned a failure (Read error incl. EOF and
+// time-out, failed / short Write, failed SetDeadline) neither stops nor tears down - it spins. This
+// is a count, not a time: the unchanged relay issues 0 such calls (a repair that writes data
+// returned together with an error issues none of the same kind either). When the limit is reached
+// the harness records the violation, closes both scripted connections so that every later call
+// fails with "closed", and the case ends. A goroutine that still goes on for another c05SpinLimit
+// calls is parked for good (it cannot be stopped otherwise) and the case is given up.
+const c05SpinLimit = 1000
 
 var c05DirName = [2]string{"up", "down"}
 var c05ConnName = [2]string{"client", "covert"}
@@ -130,6 +140,27 @@ type c05World struct {
 	pan   [2]any
 	timer *time.Timer
 	wgN   func() int // current WaitGroup counter (nil: unknown)
+	// spin detection
+	abort      *c05Viol // set when a direction kept calling after a failure (see c05SpinLimit)
+	afterAbort int
+	zombie     [2]bool // direction parked for good by the harness
+	zombies    int
+}
+
+// abortCase records the spin violation and closes both scripted connections from the harness.
+func (w *c05World) abortCase(key, msg string) {
+	if w.abort != nil {
+		return
+	}
+	w.abort = &c05Viol{key, msg}
+	for _, c := range w.conns {
+		if c != nil {
+			c.closed = true
+			c.closeRet = true
+		}
+	}
+	w.pick()
+	w.cond.Broadcast()
 }
 
 func (w *c05World) wgCount() int {
@@ -321,6 +352,8 @@ type c05Conn struct {
 	nClose    int
 	dlSet     bool
 	endHit    bool
+	failed    [5]string // per call kind (0 Read, 1 Write, 2-4 SetDeadline by up / down / unattributed): first failure handed out
+	afterFail [5]int    // calls of that kind after that failure
 	local     net.Addr
 	remote    net.Addr
 }
@@ -343,7 +376,71 @@ func (c *c05Conn) mkErr(kind, op string) error { return vconn.MkErr(kind, op, c.
 func (c *c05Conn) ev(e c05Ev) {
 	e.Seq = c.w.nextSeq()
 	e.Conn = c.idx
+	if c.w.abort != nil {
+		return // the case is over; do not grow the log while a spinning direction winds down
+	}
 	c.w.evs = append(c.w.evs, e)
+	// remember the first failure of each call kind
+	k := -1
+	switch e.Op {
+	case "read":
+		k = 0
+	case "write":
+		k = 1
+	case "setdl":
+		k = 2 + e.Dir
+		if e.Dir < 0 {
+			k = 4
+		}
+	}
+	if k >= 0 && c.failed[k] == "" && (e.Err != "" || (e.Op == "write" && e.N < e.Len)) {
+		c.failed[k] = fmt.Sprintf("%s.%s(seq%d) -> err=%q", c05ConnName[c.idx], e.Op, e.Seq, e.Err)
+		if e.Err == "" {
+			c.failed[k] = fmt.Sprintf("%s.write(seq%d) accepted %d of %d bytes", c05ConnName[c.idx], e.Seq, e.N, e.Len)
+		}
+	}
+}
+
+// tick is called (world locked) at the start of every Read (k 0) / Write (1) / SetDeadline (2) by
+// direction d. It counts calls made after a failure of the same kind and ends a spinning case.
+func (c *c05Conn) tick(d, k int) {
+	w := c.w
+	if k == 2 {
+		k = 2 + d
+		if d < 0 {
+			k = 4
+		}
+	}
+	if w.abort != nil {
+		w.afterAbort++
+		if w.afterAbort > c05SpinLimit {
+			// still going although every call fails with "closed": park this goroutine for good
+			if d >= 0 && !w.solo && w.st[d] != c05StDone {
+				w.st[d] = c05StDone
+				w.done[d] = w.nextSeq()
+				w.zombie[d] = true
+			}
+			w.zombies++
+			w.pick()
+			w.cond.Broadcast()
+			w.mu.Unlock()
+			select {}
+		}
+		return
+	}
+	if c.failed[k] == "" {
+		return
+	}
+	c.afterFail[k]++
+	if c.afterFail[k] >= c05SpinLimit {
+		kind := [5]string{"Read", "Write", "SetDeadline", "SetDeadline", "SetDeadline"}[k]
+		who := ""
+		if d >= 0 {
+			who = c05DirName[d] + ": "
+		}
+		w.abortCase("no-teardown:keeps-calling-after-failure", fmt.Sprintf("%s%d further %s calls on the %s connection after %s: the direction neither stops nor closes anything, the tunnel is never torn down and Proxy would never return (counted calls, no clock involved; the harness then closed both connections to end the case)",
+			who, c.afterFail[k], kind, c05ConnName[c.idx], c.failed[k]))
+	}
 }
 
 func (c *c05Conn) read(d int, p []byte) (int, error) {
@@ -351,6 +448,7 @@ func (c *c05Conn) read(d int, p []byte) (int, error) {
 	w.mu.Lock()
 	defer w.mu.Unlock()
 	w.gate(d)
+	c.tick(d, 0)
 	for {
 		if c.closed {
 			c.ev(c05Ev{Dir: d, Op: "read", Off: c.pos, Err: "closed"})
@@ -427,6 +525,7 @@ func (c *c05Conn) write(d int, p []byte) (int, error) {
 	w.mu.Lock()
 	defer w.mu.Unlock()
 	w.gate(d)
+	c.tick(d, 1)
 	idx := c.nWrite
 	c.nWrite++
 	e := c05Ev{Dir: d, Op: "write", Call: idx, Len: len(p), Off: c.offered, Bad: -1, BadDl: -1}
@@ -468,6 +567,7 @@ func (c *c05Conn) setDL(d int, t time.Time) error {
 	w.mu.Lock()
 	defer w.mu.Unlock()
 	w.gate(d)
+	c.tick(d, 2)
 	all := c.nDL[2]
 	c.nDL[2]++
 	mine := all
